@@ -81,7 +81,7 @@ structure Cfg where
   deriving DecidableEq, Repr
 
 /-- the numbers of the English property / DESIGN §7 -/
-def Cfg.paper : Cfg :=
+@[reducible] def Cfg.paper : Cfg :=
   { regDelay := 350, ann := [350, 575, 800], updAnn := [0, 225, 450], bye := [0, 125, 250], maxDelay := 100,
     qLo := 20, qHi := 120, qOff := [0, 1000, 5000, 14000], dupQ := 999, respBefore := 1000, respAfter := 1200 }
 
